@@ -471,6 +471,15 @@ Definition ident_equiv (a b : ident) : bool :=
   | _, _ => false
   end.
 
+(** the path handed to the next handler: a request for an FQDN (a name with a dot)
+    must be served under exactly that FQDN — /ipns/<inlined label> would resolve a
+    different DNSLink record; for single labels the un-inlined reading is accepted *)
+Definition ident_served (a b : ident) : bool :=
+  match a, b with
+  | IdName x, IdName y => if contains dot x then String.eqb x y else String.eqb (nf x) (nf y)
+  | _, _ => ident_equiv a b
+  end.
+
 (** remainders are compared as segment sequences: runs of '/' collapsed, leading '/' dropped *)
 Fixpoint collapse (prev_slash : bool) (s : string) : string :=
   match s with
@@ -566,7 +575,7 @@ Definition spec_outcome (orc : oracle) (t : intent) (o : outcome) : bool :=
       | Some (p0, ns, root, rest) =>
           String.eqb p0 "" && String.eqb ns (t_ns t) &&
           (if in_scope orc (t_ns t) (t_root t)
-           then ident_equiv (ident_of orc (t_ns t) (t_root t)) (ident_of orc ns root) else true) &&
+           then ident_served (ident_of orc (t_ns t) (t_root t)) (ident_of orc ns root) else true) &&
           String.eqb (norm_rest rest) (norm_rest (t_rest t)) &&
           String.eqb query (t_query t)
       | None => false
